@@ -3,7 +3,7 @@
    ISA specification Isa/X86.v, for ALL values.  The per-encoding breadth part is the in-kernel differential
    check of Isa/C01Check.v (processor + specification as oracles). *)
 From Coq Require Import ZArith List Bool NArith.
-From Falcon Require Import Base.Res IL.Const IL.ConstSpec IL.Expr IL.Func Exec.Sem Isa.X86 Isa.X86Lift Isa.X86Proofs Isa.X86Sim Isa.C01Check Isa.X86Tie Isa.X86SimMem Isa.X86SimStack Isa.X86SimCarry.
+From Falcon Require Import Base.Res IL.Const IL.ConstSpec IL.Expr IL.Func Exec.Sem Isa.X86 Isa.X86Lift Isa.X86Mirror Isa.X86Proofs Isa.X86Sim Isa.C01Check Isa.X86Tie Isa.X86SimMem Isa.X86SimStack Isa.X86SimCarry Isa.X86SimMore Isa.X86SimXchg Isa.X86SimMul Isa.X86SimShift.
 Import ListNotations.
 Local Open Scope Z_scope.
 
@@ -443,3 +443,78 @@ Theorem sbb_rmw_sim : forall m addr len sz dst src,
   mem_operand_ok m dst -> src_operand_ok m sz src -> width_ok sz -> sim_when (no_wrap sz dst) m addr len (IAlu ASbb sz dst src).
 Proof. exact X86SimCarry.sbb_rmw_sim. Qed.
 Print Assumptions sbb_rmw_sim.
+
+(* 16. round 6: test, neg, not (register and memory destinations) *)
+Theorem test_sim : forall m addr len sz dst src,
+  reg_operand_ok m sz dst -> src_operand_ok m sz src -> width_ok sz -> sim m addr len (IAlu ATest sz dst src).
+Proof. exact X86SimMore.test_sim. Qed.
+Print Assumptions test_sim.
+Theorem test_mem_sim : forall m addr len sz dst src,
+  mem_operand_ok m dst -> src_operand_ok m sz src -> width_ok sz -> sim_when (no_wrap sz dst) m addr len (IAlu ATest sz dst src).
+Proof. exact X86SimMore.test_mem_sim. Qed.
+Print Assumptions test_mem_sim.
+Theorem neg_sim : forall m addr len sz dst,
+  reg_operand_ok m sz dst -> width_ok sz -> sim m addr len (IUn UNeg sz dst).
+Proof. exact X86SimMore.neg_sim. Qed.
+Print Assumptions neg_sim.
+Theorem neg_rmw_sim : forall m addr len sz dst,
+  mem_operand_ok m dst -> width_ok sz -> sim_when (no_wrap sz dst) m addr len (IUn UNeg sz dst).
+Proof. exact X86SimMore.neg_rmw_sim. Qed.
+Print Assumptions neg_rmw_sim.
+Theorem not_sim : forall m addr len sz dst,
+  reg_operand_ok m sz dst -> width_ok sz -> sim m addr len (IUn UNot sz dst).
+Proof. exact X86SimMore.not_sim. Qed.
+Print Assumptions not_sim.
+Theorem not_rmw_sim : forall m addr len sz dst,
+  mem_operand_ok m dst -> width_ok sz -> sim_when (no_wrap sz dst) m addr len (IUn UNot sz dst).
+Proof. exact X86SimMore.not_rmw_sim. Qed.
+Print Assumptions not_rmw_sim.
+
+(* 17. round 6: xchg and xadd -- two destinations written in sequence; both operands may be ONE register
+   (xchg leaves it unchanged, xadd leaves the sum in it); a memory first operand is stored before the register is written *)
+Theorem xchg_sim : forall m addr len sz a b,
+  reg_operand_ok m sz a -> reg_operand_ok m sz b -> width_ok sz -> sim m addr len (IXchg sz a b).
+Proof. exact X86SimXchg.xchg_sim. Qed.
+Print Assumptions xchg_sim.
+Theorem xchg_mem_sim : forall m addr len sz a b,
+  mem_operand_ok m a -> reg_operand_ok m sz b -> width_ok sz -> sim_when (no_wrap sz a) m addr len (IXchg sz a b).
+Proof. exact X86SimXchg.xchg_mem_sim. Qed.
+Print Assumptions xchg_mem_sim.
+Theorem xadd_sim : forall m addr len sz dst src,
+  reg_operand_ok m sz dst -> reg_operand_ok m sz src -> width_ok sz -> sim m addr len (IXadd sz dst src).
+Proof. exact X86SimXchg.xadd_sim. Qed.
+Print Assumptions xadd_sim.
+Theorem xadd_mem_sim : forall m addr len sz dst src,
+  mem_operand_ok m dst -> reg_operand_ok m sz src -> width_ok sz -> sim_when (no_wrap sz dst) m addr len (IXadd sz dst src).
+Proof. exact X86SimXchg.xadd_mem_sim. Qed.
+Print Assumptions xadd_mem_sim.
+
+(* 18. round 6: imul r, r/m and imul r, r/m, imm (register or memory source under the no-wrap condition): the
+   truncated product, CF = OF = signed overflow; ZF/SF are undefined in the specification (anything embeds) *)
+Theorem imul2_sim : forall m addr len sz dst src,
+  reg_operand_ok m sz (OReg dst) -> X86SimMul.opnd_ok m sz src -> isreg src = true \/ is_mem src = true -> width_ok sz ->
+  sim_when (X86SimMul.opnd_nw sz src) m addr len (IImul2 sz dst src).
+Proof. exact X86SimMul.imul2_sim. Qed.
+Print Assumptions imul2_sim.
+Theorem imul3_sim : forall m addr len sz dst src imm,
+  reg_operand_ok m sz (OReg dst) -> X86SimMul.opnd_ok m sz src -> isreg src = true \/ is_mem src = true -> 0 <= imm < 2 ^ sz -> width_ok sz ->
+  sim_when (X86SimMul.opnd_nw sz src) m addr len (IImul3 sz dst src imm).
+Proof. exact X86SimMul.imul3_sim. Qed.
+Print Assumptions imul3_sim.
+
+(* 19. round 6: shl / shr / sar with an imm8 or cl count (IShift) and with the implicit count 1 of the D0/D1 encodings
+   (IShift1), register or memory destination: the count is masked to 5 (6) bits, a masked count of zero leaves every
+   flag (and the value) unchanged, otherwise ZF/SF from the result, CF = last bit shifted out and OF for count 1 where
+   the specification defines them (they are undefined -- anything embeds -- for CF with count >= size of shl/shr and OF
+   with count <> 1) *)
+Theorem shift_sim : forall m addr len (o : shop) sz dst cnt,
+  X86SimShift.shop3 o -> width_ok sz -> X86SimMul.opnd_ok m sz dst -> isreg dst = true \/ is_mem dst = true ->
+  X86SimMul.opnd_ok m 8 cnt -> is_mem cnt = false ->
+  sim_when (X86SimMul.opnd_nw sz dst) m addr len (IShift o sz dst cnt).
+Proof. exact X86SimShift.shift_sim. Qed.
+Print Assumptions shift_sim.
+Theorem shift1_sim : forall m addr len (o : shop) sz dst,
+  X86SimShift.shop3 o -> width_ok sz -> X86SimMul.opnd_ok m sz dst -> isreg dst = true \/ is_mem dst = true ->
+  sim_when (X86SimMul.opnd_nw sz dst) m addr len (IShift1 o sz dst).
+Proof. exact X86SimShift.shift1_sim. Qed.
+Print Assumptions shift1_sim.
